@@ -13,7 +13,10 @@ from ..common import load_findings
 from ..compare import same
 from .c08 import downgrade, zoo
 
-REQUIRED = ["skeleton_inner", "skeleton_main", "decision_untouched", "both_flags_error", "rewritten", "input_untouched", "failed_dump_untouched", "crash_safe"]
+REQUIRED = ["skeleton_inner", "skeleton_main", "decision_untouched", "both_flags_error", "rewritten", "input_untouched", "failed_dump_untouched", "crash_safe",
+            "updateF_none", "io_fault_safe"]
+# raw trace event -> operation number of the model's run with one chunk (mkdir, create, append, replace, rmtree)
+FAULT_OP = {"os.mkdir": 0, "open-w": 1, "midwrite": 2, "os.rename": 3, "shutil.rmtree": 4}
 
 OUTPUTS = ["none", "bare", "nested", "missingdir", "absolute", "same-as-input", "dotdot"]
 OLD, BYSTANDER = b"previous content of the destination", b"bystander"
@@ -276,6 +279,23 @@ def run_case(ctx, obj, cfg, crash_points=True):
                     if dkey == w_in:
                         okay = {"new", "old"}
                     frep = dict(rep, fail_at=n, event=ev, outcome=res2.get("outcome"))
+                    # ---- T2 for the fault interpreter (Fs/Fault.lean, theorem io_fault_safe): same fault, same final tree
+                    k = FAULT_OP.get(ev[0])
+                    if k is not None and cfg["output"] != "dotdot" and not out["mism"]:
+                        ev2 = fscheck.norm_events(res2.get("events", []))
+                        fresh2 = next((e[1][-1] for e in ev2 if e[0] == "mkdir"), None)
+                        m2 = ctx.driver.run([dict(model_request(sb2, cfg, arg2, fresh2, b2), fault=k)])[0]
+                        out["fault_model_evals"] = out.get("fault_model_evals", 0) + 1
+                        mfiles2 = {tuple(p_) for p_, _ in m2["fs"]["files"]}
+                        mdirs2 = {tuple(d_) for d_ in m2["fs"]["dirs"]}
+                        raised_m, raised_i = m2["sig"].startswith("raised"), res2.get("outcome", ["?"])[0] == "raised"
+                        if mfiles2 != set(a2["files"]) or mdirs2 != set(a2["dirs"]) or raised_m != raised_i:
+                            out["mism"].append(dict(what=f"with file operation {n} ({ev[0]}; model operation {k}) failing, the final tree or outcome "
+                                                         f"differs from the fault model's", config=rep["config"],
+                                                    impl=dict(outcome=res2.get("outcome"), only_impl=sorted(set(a2["files"]) - mfiles2)[:3],
+                                                              dirs_only_impl=sorted(set(a2["dirs"]) - mdirs2)[:3]),
+                                                    model=dict(sig=m2["sig"], only_model=sorted(mfiles2 - set(a2["files"]))[:3],
+                                                               dirs_only_model=sorted(mdirs2 - set(a2["dirs"]))[:3])))
                     if cls not in okay:
                         out["fails"].append((f"fault-partial-destination: file operation {n} of {n_points} ({ev[0]}) failed with ENOSPC: "
                                              f"afterwards the destination holds {cls}", frep))
@@ -361,6 +381,7 @@ def run(ctx):
         stats["evaluations"] += r["evaluations"]
         stats["crash_evals"] += r["crash_evals"]
         stats["fault_evals"] += r.get("fault_evals", 0)
+        stats["fault_model_evals"] = stats.get("fault_model_evals", 0) + r.get("fault_model_evals", 0)
         stats["max_ordinals"] = max(stats["max_ordinals"], r["ordinals"])
         key = f"proto{'<' if c['proto'] < cur else '>='}cur/{c['output']}/{'inplace' if c['inplace'] else 'copy'}/{'otherfs' if c['other_fs'] else 'samefs'}"
         hist[key] = hist.get(key, 0) + 1
@@ -379,7 +400,7 @@ def run(ctx):
              "then one killed run (os._exit before the operation; for writes also after the first half of the data) per crash point; "
              "model: op trace, outcome class and final file set of `fs.run update` for the same configuration",
         samples=[dict(config=k, runs=v) for k, v in sorted(hist.items())[:4]], config_histogram=hist,
-        complete_runs=stats["evaluations"], killed_runs=stats["crash_evals"], runs_with_injected_io_error=stats["fault_evals"], max_crash_points_per_run=stats["max_ordinals"],
+        complete_runs=stats["evaluations"], killed_runs=stats["crash_evals"], runs_with_injected_io_error=stats["fault_evals"], fault_runs_compared_with_model=stats.get("fault_model_evals", 0), max_crash_points_per_run=stats["max_ordinals"],
         other_filesystem=fscheck.other_fs_dir(), correspondence_mismatches=len(mism), wall=round(time.time() - t0, 1))
     ctx.assumptions += [
         "paths with `.`/`..` components and symlinks are exercised on the implementation only (the model resolves paths literally)",
